@@ -37,6 +37,10 @@ var (
 
 	rsdpSignature = [8]byte{'R', 'S', 'D', ' ', 'P', 'T', 'R', ' '}
 	fadtSignature = "FACP"
+
+	// fadtXDsdtOffset is the offset of the X_DSDT field in a FADT as laid
+	// out by the firmware.
+	fadtXDsdtOffset uintptr = 140
 )
 
 type acpiDriver struct {
@@ -141,6 +145,14 @@ func (drv *acpiDriver) enumerateTables(w io.Writer) *kernel.Error {
 			dsdtAddr := uintptr(fadt.Dsdt)
 			if acpiRev >= acpiRev2Plus {
 				dsdtAddr = uintptr(fadt.Ext.Dsdt)
+			}
+
+			// ACPI 2.0+ firmware may leave the 32-bit pointer null and
+			// provide only the 64-bit one (X_DSDT). table.FADT is padded
+			// by Go and does not match the firmware layout that far into
+			// the table, so the field is read at its ACPI offset.
+			if dsdtAddr == 0 && uintptr(header.Length) >= fadtXDsdtOffset+8 {
+				dsdtAddr = uintptr(*(*uint64)(unsafe.Pointer(uintptr(unsafe.Pointer(header)) + fadtXDsdtOffset)))
 			}
 
 			if header, _, err = mapACPITable(dsdtAddr); err != nil {
